@@ -263,7 +263,7 @@ def oracle_sound(case, out, pressure=False):
     sp = Spec(0, evict=False)
     sp.now = t0
     auto_gens = {}
-    stale = {}           # key -> superseded entry that a store which could not be allocated left behind
+    stale = {}           # key -> superseded entries that a store whose copy could not be allocated may have left behind (at most one is present)
     for i, (o, a) in enumerate(zip(ops, toks)):
         f = o.split(':')
         tag = f[0]
@@ -276,7 +276,7 @@ def oracle_sound(case, out, pressure=False):
                 # this store cannot be carried out.  Property: the key must not be served from older data afterwards.
                 # (no generation number is consumed: nothing reaches the cache)
                 if f[1] in sp.m:
-                    stale[f[1]] = sp.m[f[1]]
+                    stale.setdefault(f[1], []).append(sp.m[f[1]])
                     sp.remove(f[1])
             else:
                 if pressure and backend.startswith('p'):
@@ -284,7 +284,7 @@ def oracle_sound(case, out, pressure=False):
                     # supersedes may be left behind; remember it (an older left-over stays the candidate if there is no newer one)
                     if f[1] in sp.m:
                         pe = sp.m[f[1]]
-                        stale[f[1]] = (pe[0], pe[1], pe[2], None)
+                        stale.setdefault(f[1], []).append((pe[0], pe[1], pe[2], None))
                 else:
                     stale.pop(f[1], None)
                 continue_store = True
@@ -299,14 +299,14 @@ def oracle_sound(case, out, pressure=False):
                 if len(af) != 6:
                     return ('bad-output', 'malformed hit token ' + a[:200])
                 where = 'op %d (%s) answered %s' % (i, o[:80], a[:160])
-                se = stale.get(f[1])
+                ses = stale.get(f[1], [])
 
                 def same(ent):
                     return (ent is not None and ent[2] >= sp.now and af[1] == ent[0] and af[2] == ('+'.join(ent[1]) if ent[1] else '.')
                             and int(af[3]) == ent[2] and (ent[3] is None or int(af[4]) == ent[3]))
-                if not same(e) and same(se):
-                    return ('stale-after-failed-store', 'the latest store under this key could not be allocated (value larger than the '
-                            'shared segment) and was dropped silently, but the superseded entry is still served: ' + where)
+                if not same(e) and any(same(x) for x in ses):
+                    return ('stale-after-failed-store', 'a later store under this key could not be allocated (value larger than the shared '
+                            'segment, or the segment is full) and was dropped silently, but the superseded entry is still served: ' + where)
                 if e is None:
                     return ('hit-after-invalidation', 'fetch hit for a key that was never stored, or was removed / cleared / had a trigger '
                             'raised since its last store: ' + where)
@@ -330,8 +330,10 @@ def oracle_sound(case, out, pressure=False):
                 return ('bad-output', 'unexpected token %s for fetch' % a[:100])
         elif tag == 'R':
             sp.rise(f[1])
-            for k in [k for k, se in stale.items() if f[1] in se[1]]:
-                del stale[k]
+            for k in list(stale):
+                stale[k] = [x for x in stale[k] if f[1] not in x[1]]
+                if not stale[k]:
+                    del stale[k]
         elif tag == 'D':
             sp.remove(f[1])
             stale.pop(f[1], None)
@@ -348,7 +350,7 @@ def oracle_sound(case, out, pressure=False):
         if stale:
             # entries left behind by the known finding may or may not be counted; only the bounds are checked
             smax = len(sp.m) + len(stale)
-            tmax = sp.trig_count() + sum(len(se[1]) for se in stale.values())
+            tmax = sp.trig_count() + sum(max(len(x[1]) for x in l) for l in stale.values())
             if ks > smax or tsn > tmax or (exact and (ks < len(sp.m) or tsn < sp.trig_count())):
                 return ('stats-wrong', 'stats after op %d (%s) are %s, history implies between %d/%d and %d/%d'
                         % (i, o[:80], st, len(sp.m), sp.trig_count(), smax, tmax))
@@ -793,6 +795,30 @@ def ifc_cases(rng, n, backends, limits):
     return cases
 
 
+def ifc_exhaustive(length):
+    """all interface sequences of a fixed length over a tiny alphabet: one frame with one trigger stored with/without notriggers,
+    fetched with/without notriggers, an explicit trigger, rise of the frame trigger, recorder open/close, reset; closed by
+    detaching every recorder still open"""
+    f0, t0, t1 = hx(b'f0'), hx(b't0'), hx(b't1')
+    alpha = ['S:%s:78:%s:5:0' % (f0, t0), 'S:%s:79:.:5:1' % f0, 'F:%s:0' % f0, 'F:%s:1' % f0, 'A:' + t1, 'R:' + t0, '(', ')', 'X']
+    cases = []
+    for seq in itertools.product(alpha, repeat=length):
+        depth = 0
+        ok = True
+        for o in seq:
+            if o == '(':
+                depth += 1
+            elif o == ')':
+                if depth == 0:
+                    ok = False
+                    break
+                depth -= 1
+        if not ok:
+            continue
+        cases.append('ifc t 0 %d %s' % (T0, ' '.join(list(seq) + [')'] * depth)))
+    return cases
+
+
 def pressure_cases(rng, n):
     """process_shared cache with values of 4..60 KiB in a 512 KiB / 1 MiB segment: not_enough_memory() evictions, failed copies,
     bad_alloc -> nl_clear.  No model (the allocator is the environment); the oracle demands that every hit is the latest store."""
@@ -914,14 +940,17 @@ def run(ctx):
                             'pinned), the oracle is the finite map. Non-trivial = at least one hit and at '
                             'least one miss of a previously stored key; distinct = distinct case lines.')
     ctx.coverage['exhaustive'] = False
-    ctx.coverage['exhaustive_parts'] = ['all op sequences of length 3 (quick) / 4 (thorough) over the 29-op alphabet ending in a fetch x limits {0,1,2}',
-                                        'all op sequences of length 4 (quick) / 5 (thorough) over the 15-op alphabet ending in a fetch']
+    ctx.coverage['exhaustive_parts'] = ['all op sequences of length 3 (quick) / 4 (thorough) over the 27-op alphabet ending in a fetch x limits {0,1,2}',
+                                        'all op sequences of length 4 (quick) / 5 (thorough) over the 15-op alphabet ending in a fetch',
+                                        'all well-nested interface sequences of length 3 (quick) / 4 (thorough) over a 9-op alphabet (store with/without '
+                                        'notriggers, fetch with/without notriggers, add_trigger, rise, recorder open/close, reset)']
     seqs = [c for c in cases if c.startswith('seq ')]
     ifcs = [c for c in cases if c.startswith('ifc ') or c.startswith('ifp ')]
     hms = [c for c in cases if c.startswith('hm ')]
     vlib.differential(ctx, seqs, exe, mexe, oracle, nontrivial, classify)
     if ctx.replay_cases is None:
         ifcs += ifc_cases(ctx.rng, ctx.scale(600, 6000), ['t', 'p512'], [0, 0, 2, 64])
+        ifcs += ifc_exhaustive(ctx.scale(3, 4))
     prss = [c for c in cases if c.startswith('prs ')]
     if ctx.replay_cases is None:
         prss += pressure_cases(ctx.rng, ctx.scale(150, 1500))
